@@ -25,7 +25,7 @@ type c18Cell struct {
 	Cert   int  `json:"cert"`  // 0 valid, 1 other host, 2 untrusted CA, 3 valid for the PROXY's host name (https proxy only)
 	Host   int  `json:"host"`
 	TLSNil bool `json:"tls_client_config_nil"` // Dialer.TLSClientConfig == nil (system roots), after an earlier wss dial to another host
-	Refuse int  `json:"proxy_refuses"`         // 0 no, 1 status 407, 2 status 407 without reason phrase, 3 status 204 (a 2xx that is not 200), 4 status 302
+	Refuse int  `json:"proxy_refuses"`         // 0 no, 1 status 407, 2 status 407 without reason phrase, 3 status 204 (a 2xx that is not 200), 4 status 302, 5 hangs up after reading the CONNECT
 	// HostHdr: the caller overrides the Host header (requestHeader["Host"] = other.example); the
 	// certificate must still be verified for the URL's host, the CONNECT target stays the URL's
 	HostHdr bool `json:"host_header_override,omitempty"`
@@ -76,7 +76,7 @@ func init() {
 						if !wss && cert > 0 || cert == 3 && proxy != 2 {
 							continue
 						}
-						for refuse := 0; refuse < 5; refuse++ {
+						for refuse := 0; refuse < 6; refuse++ {
 							if proxy == 0 && refuse > 0 || proxy == 3 && refuse > 1 {
 								continue
 							}
@@ -128,7 +128,7 @@ func init() {
 			return len(c18Cells) + len(c18EnvCells)
 		},
 		Run:          runC18,
-		Required:     []string{"dials", "connect_requests_checked", "tls_sessions_checked", "hook_logs_checked", "bad_certificates_refused", "dials_with_proxy_from_environment", "dials_with_host_header_override", "second_dials_after_a_refusal"},
+		Required:     []string{"dials", "connect_requests_checked", "tls_sessions_checked", "hook_logs_checked", "bad_certificates_refused", "dials_with_proxy_from_environment", "dials_with_host_header_override", "second_dials_after_a_refusal", "untrusted_backends_visited_before_by_a_trusting_dialer"},
 		CaseTimeoutS: 240,
 		MaxWorkers:   8,
 		Assumptions: []string{
@@ -234,7 +234,7 @@ func runC18(ctx *core.Ctx, out *core.Out) {
 	var sp *socksProxy
 	proxyHostPort := ""
 	proxyLogical := "proxy.test:3128"
-	status := []int{200, 407, 407, 204, 302}[cell.Refuse]
+	status := []int{200, 407, 407, 204, 302, -1}[cell.Refuse]
 	switch cell.Proxy {
 	case 1, 2:
 		var pt *tls.Config
